@@ -80,6 +80,51 @@ def first_diff(a, b):
     return 'no difference'
 
 
+def _uend_diff(a, b):
+    ua = np.frombuffer(bytes.fromhex(a['uend']))
+    ub = np.frombuffer(bytes.fromhex(b['uend']))
+    if ua.shape != ub.shape:
+        return 'shapes differ'
+    rel = np.abs(ua - ub).max() / max(1.0, np.abs(ub).max())
+    return f'relative difference {rel:.3e} roundoff-only={bool(rel <= 1e-12)}'
+
+
+def _roundoff_only(stats_a, stats_b):
+    """True if the records agree once times are rounded to 11 digits and values are compared to 1e-12 relative
+    (keys and values are encoded as in vlib/c19_ref.digest: floats as hex of their 8 bytes, arrays as 'arr:<hex>', floats 'f:<hex>')"""
+
+    def fl(x):
+        return float(np.frombuffer(bytes.fromhex(x), dtype=np.float64)[0])
+
+    def norm(stats):
+        out = {}
+        for key, val in stats:
+            if key[6] not in ('niter', 'residual_post_step', 'u'):
+                continue
+            k2 = [round(fl(x), 11) + 0.0 if isinstance(x, str) and len(x) == 16 and all(c in '0123456789abcdef' for c in x) else x for x in key]
+            out[json.dumps(k2)] = val
+        return out
+
+    def value(v):
+        if isinstance(v, str) and v.startswith('arr:'):
+            return np.frombuffer(bytes.fromhex(v[4:]), dtype=np.float64)
+        if isinstance(v, str) and v.startswith('f:'):
+            return np.array([fl(v[2:])])
+        return v
+
+    A, B = norm(stats_a), norm(stats_b)
+    if set(A) != set(B):
+        return False
+    for k in A:
+        va, vb = value(A[k]), value(B[k])
+        if isinstance(va, np.ndarray) and isinstance(vb, np.ndarray):
+            if va.shape != vb.shape or np.abs(va - vb).max() > 1e-12 * max(1.0, np.abs(vb).max()):
+                return False
+        elif not (isinstance(va, type(vb)) and va == vb):
+            return False
+    return True
+
+
 def prop(case, r):
     cfgs = case['configs']
     t0 = case['t0']
@@ -156,7 +201,7 @@ def prop(case, r):
         else:
             ref_first = next(it)
             r.check(same(item[7], ref_first), 'split-first-part-differs', lambda: f'config {k}: {first_diff(item[7], ref_first)}')
-            r.check(item[5]['uend'] == ref['uend'], 'split-continue-differs', lambda: f'config {k} (procs {cfg["num_procs"]}, levels {cfg["levels"]}, guess {cfg["initial_guess"]}): continuing from the returned value at t={item[6]!r} gives a different end value than the uninterrupted run')
+            r.check(item[5]['uend'] == ref['uend'], 'split-continue-differs', lambda: f'config {k} (procs {cfg["num_procs"]}, levels {cfg["levels"]}, guess {cfg["initial_guess"]}): continuing from the returned value at t={item[6]!r} gives a different end value than the uninterrupted run ({_uend_diff(item[5], ref)})')
             # statistics of the two parts together == statistics of the uninterrupted run
             merged = sorted(item[7]['stats'] + item[5]['stats'], key=lambda e: json.dumps(e[0], default=str))
             dedup = []
@@ -167,7 +212,7 @@ def prop(case, r):
             keys_r = {json.dumps(e[0]) for e in ref['stats'] if e[0][6] in ('niter', 'residual_post_step', 'u')}
             vals_m = {json.dumps(e[0]): e[1] for e in dedup}
             vals_r = {json.dumps(e[0]): e[1] for e in ref['stats']}
-            r.check(keys_m == keys_r and all(vals_m[k_] == vals_r[k_] for k_ in keys_r), 'split-statistics-differ', lambda: f'config {k}: per-step records of the two parts differ from the uninterrupted run')
+            r.check(keys_m == keys_r and all(vals_m[k_] == vals_r[k_] for k_ in keys_r), 'split-statistics-differ', lambda: f'config {k}: per-step records of the two parts differ from the uninterrupted run (roundoff-only={_roundoff_only(dedup, ref["stats"])})')
 
 
 @st.composite
@@ -224,7 +269,8 @@ def known_match(fid, clause, case, failure):
         m = _re.search(r'config (\d+)', msg)
         cfg = case['configs'][int(m.group(1)) % len(case['configs'])] if m else None
         dyadic = cfg is not None and float(cfg['dt']) in (0.125, 0.25, 0.0625, 0.5)
-        return cfg is not None and cfg['num_procs'] >= 3 and not dyadic
+        # ... and nothing but rounding differs
+        return cfg is not None and cfg['num_procs'] >= 3 and not dyadic and 'roundoff-only=True' in msg
     if fid == 'F8' and tag in ('rerun-differs', 'split-continue-differs', 'split-statistics-differ', 'split-first-part-differs'):
         return 'guess random' in msg or ('config' in msg and any(c['initial_guess'] == 'random' for c in case['configs']) and tag.startswith('split'))
     return False
